@@ -567,7 +567,12 @@ func (self *Interpreter) castExpression(node ast.AnalyzedCastExpression) (*value
 	// }
 
 	// TODO: implement a `deepCast` method which can convert [ {} ] -> [ { ? } ]
-	return value.DeepCast(*base, node.AsType, node.Span(), true)
+	casted, castErr := value.DeepCast(*base, node.AsType, node.Span(), true)
+	if castErr != nil {
+		// A failed cast is an ordinary, catchable exception (like on the VM).
+		return nil, value.NewThrowInterrupt(node.Span(), "Cast error "+(*castErr).Message())
+	}
+	return casted, nil
 
 	panic(fmt.Sprintf("Unsupported runtime cast from %v to %s", (*base).Kind(), node.AsType.Kind()))
 }
